@@ -1,7 +1,7 @@
 INIT Init
 NEXT Next
 CONSTANT CMax = 30
-CONSTANT Variant = "far_zero"
+CONSTANT Variant = "floor_sign"
 INVARIANT KernelRefines
 INVARIANT DivRoundedRefines
 INVARIANT AddSubRefines
